@@ -207,7 +207,16 @@ func (v *catalog_[K, V]) RemoveValue(key K) V {
 	var old V // Set the return value to its zero value.
 	var association, exists = v.keys_[key]
 	if exists {
-		var index = v.associations_.GetIndex(association)
+		// Locate the association by identity rather than by comparing keys and
+		// values, since distinct keys (e.g. pointers) may have equal contents.
+		var index int
+		var iterator = v.associations_.GetIterator()
+		for iterator.HasNext() {
+			index++
+			if iterator.GetNext() == association {
+				break
+			}
+		}
 		v.associations_.RemoveValue(index)
 		old = association.GetValue()
 		delete(v.keys_, key)
